@@ -74,6 +74,117 @@ def scalar(e):
     raise TypeError(type(e))
 
 
+HEADER_T = ('From Coq Require Import ZArith QArith Qcanon List.\nFrom SSJ Require Import Model.Sparse Model.GET Model.Containers Model.ContainersT.\nImport ListNotations.\nOpen Scope Z_scope.\n')
+
+
+def gen_jd_T(rng, T, outs, ins, p=0.7):
+    """collection with entries absent / sparse (integer coefficients, shifts within +-2, sometimes with missing initial rows) / dense integer T x T / identity"""
+    nd = []
+    for o in outs:
+        row = []
+        for i in ins:
+            if rng.random() < p:
+                kind = rng.choice(['sparse', 'sparse', 'dense', 'identity'])
+                if kind == 'sparse':
+                    els = {}
+                    for _ in range(rng.randint(1, 3)):
+                        els[(rng.randint(-2, 2), rng.choice([0, 0, 1]))] = rng.choice([-2, -1, 1, 2, 3])
+                    row.append([i, 'sparse', sorted([[k[0], k[1], v] for k, v in els.items()])])
+                elif kind == 'dense':
+                    row.append([i, 'dense', [[rng.randint(-2, 2) for _ in range(T)] for _ in range(T)]])
+                else:
+                    row.append([i, 'identity', None])
+        nd.append([o, row])
+    return dict(nd=nd, outs=list(outs), ins=list(ins))
+
+
+def build_jd_T(d, T):
+    JD, _, _, _, SS, IM, OS = cls()
+    def ent(kind, v):
+        if kind == 'sparse':
+            return SS({(a, b): float(c) for a, b, c in v})
+        if kind == 'dense':
+            return np.array(v, dtype=float)
+        return IM()
+    return JD({nm(o): {nm(i): ent(k, v) for i, k, v in row} for o, row in d['nd']}, OS(nm(o) for o in d['outs']), OS(nm(i) for i in d['ins']), T=T)
+
+
+def coq_jd_T(d):
+    def ent(k, v):
+        if k == 'sparse':
+            return 'ESp ' + C.coq_list(v, lambda e: f'(({C.zs(e[0])}, {C.zs(e[1])}), {C.zs(e[2])})')
+        if k == 'dense':
+            return 'EDn ' + C.coq_mat(v)
+        return 'EId'
+    rows = C.coq_list(d['nd'], lambda r: f'({r[0]}, ' + C.coq_list(r[1], lambda e: f'({e[0]}, ({ent(e[1], e[2])}))') + ')')
+    return f'(mkT {rows} {C.coq_list(d["outs"])} {C.coq_list(d["ins"])})'
+
+
+def dense_T(e, T):
+    JD, _, _, _, SS, IM, OS = cls()
+    if isinstance(e, np.ndarray):
+        return e
+    if isinstance(e, SS):
+        return e.matrix(T)
+    if isinstance(e, IM):
+        return np.eye(T)
+    raise TypeError(type(e))
+
+
+def correspondence_T(ctx, n):
+    """JacobianDict.compose and JacobianDict.apply at horizons 2-5 with mixed entry kinds vs Model/ContainersT.v (exact: integer data)"""
+    from fractions import Fraction
+    rng = ctx['rng']
+    cases, exprs = [], []
+    for k in range(n):
+        T = rng.randint(2, 5)
+        pool = list(range(8))
+        oA, mid, iB = rng.sample(pool, rng.randint(1, 3)), rng.sample(pool, rng.randint(1, 3)), rng.sample(pool, rng.randint(1, 3))
+        extraA = rng.sample([x for x in pool if x not in mid], rng.randint(0, 1))          # an input of A that B does not produce
+        A = gen_jd_T(rng, T, oA, mid + extraA)
+        B = gen_jd_T(rng, T, mid + rng.sample([x for x in pool if x not in mid], rng.randint(0, 1)), iB)
+        x = {i: [rng.randint(-3, 3) for _ in range(T)] for i in rng.sample(pool, rng.randint(1, 4))}
+        cases.append(dict(T=T, A=A, B=B, x=x))
+        exprs.append(f'(run_composeT {T} {coq_jd_T(A)} {coq_jd_T(B)}, run_applyT {T} {coq_jd_T(A)} ' + C.coq_list(list(x.items()), lambda kv: f'({kv[0]}, {C.coq_list(kv[1])})') + ')')
+    vals, logs = C.eval_in_coq('C14', HEADER_T, exprs, chunk=max(1, n // 16 + 1), tag='compT')
+    fr = lambda q: float(Fraction(int(q[0]), int(q[1])))
+    dis, stats = [], dict(kinds={}, absent_results=0)
+    for c, vm in zip(cases, vals):
+        if vm is None:
+            continue
+        T = c['T']
+        for d in (c['A'], c['B']):
+            for _, row in d['nd']:
+                for _, kd, _ in row:
+                    stats['kinds'][kd] = stats['kinds'].get(kd, 0) + 1
+        nd_m, outs_m, ins_m, app_m = vm if len(vm) == 4 else (vm[0][0], vm[0][1], vm[0][2], vm[1])          # Coq prints ((a, b, c), d) as (a, b, c, d)
+        bad = []
+        try:
+            JA, JB = build_jd_T(c['A'], T), build_jd_T(c['B'], T)
+            snapA, snapB = snapshot(JA), snapshot(JB)
+            Jc = JA @ JB
+            got = {o: {i: dense_T(e, T).tolist() for i, e in row.items()} for o, row in Jc.nesteddict.items()}
+            model = {nm(o): {nm(i): [[fr(q) for q in r] for r in M] for i, M in row} for o, row in nd_m}
+            if got != model or list(Jc.outputs) != [nm(o) for o in outs_m] or list(Jc.inputs) != [nm(i) for i in ins_m]:
+                bad.append('compose')
+            stats['absent_results'] += sum(1 for o in c['A']['outs'] for i in c['B']['ins'] if nm(i) not in got.get(nm(o), {}))
+            xi = {nm(k): np.array(v, dtype=float) for k, v in c['x'].items()}
+            ya = JA.apply(dict(xi)) if not hasattr(JA, '__matmul__') else JA @ dict(xi)
+            gota = {k: np.asarray(ya[k]).tolist() for k in ya}
+            modela = {nm(k): [fr(q) for q in v] for k, v in app_m}
+            if gota != modela:
+                bad.append('apply')
+            if not same_snapshot(snapshot(JA), snapA) or not same_snapshot(snapshot(JB), snapB):
+                bad.append('operands mutated')
+        except Exception as ex:
+            bad.append(f'raised {type(ex).__name__}: {ex}')
+        if bad:
+            dis.append(dict(what='JacobianDict.compose / apply at horizon T differ from the executable model over the mixed sparse/dense algebra', case=dict(c, differing=bad)))
+    for l in logs:
+        dis.append(dict(what='coq evaluation failed', log=l))
+    return cases, exprs, dis, stats
+
+
 def correspondence(ctx):
     JD, _, ID, _, SS, IM, OS = cls()
     rng = ctx['rng']
@@ -130,10 +241,12 @@ def correspondence(ctx):
             dis.append(dict(what=f'JacobianDict.{c["op"]}', case=c, impl=got, model=model))
     for l in logs:
         dis.append(dict(what='coq evaluation failed', log=l))
-    return dict(evaluations=len(cases), distinct_nontrivial=len(distinct),
+    casesT, exprsT, disT, statsT = correspondence_T(ctx, 64 if ctx['tier'] == 'quick' else 640)
+    return dict(evaluations=len(cases) + len(exprsT), distinct_nontrivial=len(distinct) + len({C.canon(c) for c in casesT}),
                 rule='random name sets over 6 names (overlapping/disjoint middles), presence pattern 60%, entry kinds dense/sparse/identity at T=1 with '
-                     'integer values; compose and apply results (names, presence, values) vs the scalar instance of the model',
-                samples=[cases[0], cases[1]], disagreements=dis, stats=stats)
+                     'integer values; compose and apply results (names, presence, values) vs the scalar instance of the model; second stream: horizons 2-5, entries absent / SimpleSparse with shifts within +-2 '
+                     '(some with missing initial rows) / dense integer arrays / IdentityMatrix: A @ B and A @ paths vs the executable model over the mixed sparse/dense algebra (Model/ContainersT.v), exact, operands untouched',
+                samples=[cases[0], cases[1]], disagreements=dis + disT, stats=dict(stats, horizon_T=statsT))
 
 
 # ---------------------------------------------------------------------------------------------------
